@@ -385,6 +385,83 @@ func init() {
 					}
 				}
 			}
+			// (3d) range loops whose bounds / step are variables or expressions the BODY modifies: the range
+			// is fixed when the loop starts (the arguments are evaluated again every step, their values unused)
+			rangeHeads := []struct{ pre, head string }{
+				{"n := 3\n", "range(1, n)"},
+				{"n := 3\n", "range(n, 1, -1)"},
+				{"n := 3\n", "range(0, n - 1)"},
+				{"n := 2\nst := 1\n", "range(0, 6, st)"},
+				{"n := 2\nst := 2\n", "range(n, 8, st)"},
+				{"l := [5, 6, 7, 8]\nn := 0\n", "range(0, len(l) - 1)"},
+				{"l := [5, 6, 7, 8]\nn := 0\n", "range(len(l), 1, -1)"},
+				{"l := [5, 6]\nn := 0\n", "range(1, len(l))"},
+				{"n := 1\n", "range(x.mark(n), x.mark(n + 2))"},
+			}
+			rangeBodies := []string{
+				"x.mark(i)\nn := 6",
+				"x.mark(i)\nn := n + 1",
+				"x.mark(i)\nn := 0",
+				"x.mark(i)\nst := st + 1\nn := n + 2",
+				"x.mark(i)\nl := del(l, 0)",
+				"x.mark(i)\nl := add(l, 9)",
+				"x.mark(i)\nl := []",
+				"x.mark(i)\nn := 6\nif i == 2 {\ncontinue\n}\nx.mark(n)",
+				"x.mark(i)\nn := 0\nif i == 2 {\nbreak\n}",
+				"x.mark(i)\nfor j in range(1, n) {\nn := n + 1\nx.mark(j)\nif j > 4 {\nbreak\n}\n}",
+				"x.mark(i)\ntry {\nn := 6\nraise(\"E1\")\n} except {\nn := n + 1\n} finally {\nl := [1]\n}",
+			}
+			for _, h := range rangeHeads {
+				for _, b := range rangeBodies {
+					pre := "st := 1\nl := [5, 6, 7]\n" + h.pre
+					loop := "for i in " + h.head + " {\n" + b + "\n}"
+					emit("range arguments modified by the body", pre+loop+"\nx.mark([n, st, l])\n99")
+					emit("range arguments modified by the body, in for-in loop", pre+"for k in [7, 8] {\n"+loop+"\nx.mark(k)\n}\nx.mark([n, st, l])\n99")
+					emit("range arguments modified by the body, in condition loop", pre+"w := 2\nfor w > 0 {\nw := w - 1\n"+loop+"\n}\nx.mark([n, st, l])\n99")
+					emit("range arguments modified by the body, in function", pre+"func f() {\n"+strings.ReplaceAll(loop, "n := ", "n := ")+"\nreturn [n, st, l]\n}\nx.mark(f())\nx.mark(f())\n99")
+				}
+			}
+			// (3e) guards that raise: a runtime error or a raise (through a called function) while a guard is
+			// evaluated ends the statement with that error — at every position of an if / elif chain, in the
+			// guard of a condition loop and in the iterable of a for-in loop; inside / outside try
+			badGuards := []struct{ name, expr string }{
+				{"wrong-kind arithmetic", "5 > lim - 1"},
+				{"unknown function", "nofunc(1)"},
+				{"index out of range", "l[7] == 1"},
+				{"raise through function", "boom(1)"},
+				{"raise through function in comparison", "boom(2) == 2"},
+				{"not on a number", "not lim"},
+			}
+			guardPre := "lim := \"10x\"\nl := [1, 2]\nfunc boom(k) {\nx.mark(k + 60)\nraise(\"E1\", \"d\", k)\n}\n"
+			wraps := []struct{ name, pre, post string }{
+				{"plain", "", ""},
+				{"try bare except", "try {\n", "\n} except {\nx.mark(20)\n} otherwise {\nx.mark(30)\n} finally {\nx.mark(40)\n}"},
+				{"try typed except as e", "try {\n", "\n} except \"E1\" as e {\nx.mark(e.type)\nx.mark(e.data)\n} except \"Operand is not a number\" {\nx.mark(21)\n} otherwise {\nx.mark(30)\n}"},
+				{"try typed except, no match", "try {\n", "\n} except \"E2\" {\nx.mark(22)\n} finally {\nx.mark(41)\n}"},
+				{"try as e", "try {\n", "\n} except as e {\nx.mark(e.type)\n} otherwise {\nx.mark(31)\n}"},
+				{"try otherwise finally only", "try {\n", "\n} otherwise {\nx.mark(32)\n} finally {\nx.mark(42)\n}"},
+				{"in function with try", "func f() {\ntry {\n", "\n} except {\nx.mark(23)\nreturn 4\n}\nreturn 5\n}\nx.mark(f())"},
+				{"in for-in loop with try", "for k in [7, 8] {\ntry {\n", "\n} except \"E1\" {\nx.mark(k)\n} except {\nx.mark(k + 10)\ncontinue\n}\nx.mark(k + 20)\n}"},
+			}
+			for _, bg := range badGuards {
+				stmts := []string{
+					"if " + bg.expr + " {\nx.mark(1)\n} elif true {\nx.mark(2)\n} else {\nx.mark(3)\n}",
+					"if false {\nx.mark(1)\n} elif " + bg.expr + " {\nx.mark(2)\n} else {\nx.mark(3)\n}",
+					"if false {\nx.mark(1)\n} elif 1 == 2 {\nx.mark(2)\n} elif " + bg.expr + " {\nx.mark(3)\n} elif true {\nx.mark(4)\n}",
+					"if true {\nx.mark(1)\n} elif " + bg.expr + " {\nx.mark(2)\n}",
+					"if " + bg.expr + " {\nx.mark(1)\n}",
+					"if x.mark(false) {\nx.mark(1)\n} elif " + bg.expr + " {\nx.mark(2)\n} elif x.mark(true) {\nx.mark(3)\n}",
+					"c := 0\nfor " + bg.expr + " {\nc := c + 1\nx.mark(c)\nif c > 2 {\nbreak\n}\n}",
+					"c := 0\nfor c < 3 and (c < 1 or " + bg.expr + ") {\nc := c + 1\nx.mark(c)\n}",
+					"for i in " + bg.expr + " {\nx.mark(i)\n}",
+					"for i in [1, 2] {\nif i == 2 and " + bg.expr + " {\nx.mark(5)\n} else {\nx.mark(i)\n}\n}",
+				}
+				for _, st := range stmts {
+					for _, w := range wraps {
+						emit("guard raises: "+bg.name, guardPre+"x.mark(0)\n"+w.pre+st+"\nx.mark(9)"+w.post+"\nx.mark(98)\n99")
+					}
+				}
+			}
 			// (4) random nestings
 			n := 3000
 			if g.Thorough() {
